@@ -168,12 +168,7 @@ func encodeCompFilter(filter *CompFilter) *compFilter {
 	if filter.IsNotDefined {
 		encoded.IsNotDefined = &struct{}{}
 	}
-	if !filter.Start.IsZero() || !filter.End.IsZero() {
-		encoded.TimeRange = &timeRange{
-			Start: dateWithUTCTime(filter.Start),
-			End:   dateWithUTCTime(filter.End),
-		}
-	}
+	encoded.TimeRange = newTimeRange(filter.Start, filter.End)
 	for _, child := range filter.Comps {
 		encoded.CompFilters = append(encoded.CompFilters, *encodeCompFilter(&child))
 	}
@@ -188,12 +183,7 @@ func encodePropFilter(filter *PropFilter) *propFilter {
 	if filter.IsNotDefined {
 		encoded.IsNotDefined = &struct{}{}
 	}
-	if !filter.Start.IsZero() || !filter.End.IsZero() {
-		encoded.TimeRange = &timeRange{
-			Start: dateWithUTCTime(filter.Start),
-			End:   dateWithUTCTime(filter.End),
-		}
-	}
+	encoded.TimeRange = newTimeRange(filter.Start, filter.End)
 	encoded.TextMatch = encodeTextMatch(filter.TextMatch)
 	for _, pf := range filter.ParamFilter {
 		encoded.ParamFilter = append(encoded.ParamFilter, encodeParamFilter(pf))
